@@ -100,7 +100,7 @@ def run_plan(rng, p):
     accept = (lambda n: rng.randint(1, n)) if p["partial"] else None
     b = pb.Bench(rng, p["cipher"], p["mac"], p["comp"], sender_role=p["role"], strict=p["strict"],
                  hash_name=p["hash"], accept=accept, seq0=p["seq0"],
-                 hiccup=hiccups(rng, 0.3) if p["tx_hiccups"] else None)
+                 hiccup=hiccups(rng, 0.15) if p["tx_hiccups"] else None)
     b.rekey()
     ep = 1
     for i, n in enumerate(p["lens"]):
@@ -152,7 +152,7 @@ def judge_stream(ctx, rng, p, b):
     frag, cuts = pb.frag_named(rng, p["frag"], b.boundaries(), maclen)
     rx = b.receiver()
     outcome = rx.drain(wire, frag=frag, cuts=cuts, banner=BANNER if p["banner"] else None,
-                       hiccup=hiccups(rng, 0.3) if p["rx_hiccups"] else None)
+                       hiccup=hiccups(rng, 0.15) if p["rx_hiccups"] else None)
     if outcome[0] == "banner":
         ctx.inconclusive("bench could not read its own identification line: %r" % (outcome[1],))
         return
@@ -323,7 +323,7 @@ def run(ctx):
     combos = [(c, m, comp, role) for (c, m) in suites for comp in pb.COMPRESSIONS for role in ("client", "server")]
     ctx.note("suites_offered", len(suites))
     ctx.note("combinations", len(combos))
-    per_combo = ctx.pick(12, 200)
+    per_combo = ctx.pick(8, 200)
     end = ctx.deadline(120, 600)
     import time
 
